@@ -40,7 +40,8 @@ def main():
     for _ in range(250 if quick else 4000):
         quantities.append({"m": rng.choice(MAGS), "u": rand_spec() if rng.random() < 0.7 else [[rng.choice([None] + prefixes), rng.choice(names), 1]]})
     extra_prefixes = [[a, b, op] for a in ("kilo", "mebi", "milli", "kibi") for b in ("kibi", "mega", "kilo", "pebi") for op in ("mul", "div") if (a in prefixes and b in prefixes)] + [[10, 7], [2, 5], [10, -5], [7, 3]]
-    r = impl("serial_worker.py", {"units": units, "quantities": quantities, "extra_prefixes": extra_prefixes}, timeout=1500)
+    late = [["G", "m", "length"], ["k", "t", "speed"], ["m", "K", "time"], ["M", "s", "mass"], ["h", "h", "length"]]
+    r = impl("serial_worker.py", {"units": units, "quantities": quantities, "extra_prefixes": extra_prefixes, "late": late}, timeout=1500)
     total = sum(r["counts"].values())
     for cid in r["case_ids"]:
         c.count(cid, nontrivial=True)      # one case per (object, codec); duplicates (the same unit drawn twice) collapse in the distinct count
